@@ -494,6 +494,23 @@ class Impl:
         if c == 38:
             e.enable_enforce(bool(op[1]))
             return [0, []]
+        if c in (40, 41, 42):
+            # the STORE is edited behind the enforcer's back (another process writing to the shared database):
+            # 40 = a row is inserted at a position (unless an identical row is stored already), 41 = every copy of a
+            # row is deleted, 42 = every row of one policy type is deleted.  Memory is untouched until the next reload.
+            # Not part of the Mgmt model: histories containing these ops are run with compare_model=False.
+            if self.adapter is not None:
+                name = PT[op[1]][1]
+                if c == 40:
+                    row = (name, S(op[2]))
+                    if row not in self.adapter.rows:
+                        self.adapter.rows.insert(min(op[3], len(self.adapter.rows)), row)
+                elif c == 41:
+                    row = (name, S(op[2]))
+                    self.adapter.rows = [x for x in self.adapter.rows if x != row]
+                else:
+                    self.adapter.rows = [x for x in self.adapter.rows if x[0] != name]
+            return [0, []]
         if c == 50:
             return self._b(e.enforce(*S(op[1])))
         if c == 51:
@@ -734,7 +751,9 @@ def pretty_op(op):
              18: "delete_roles_for_user", 19: "add_role_for_user_in_domain", 20: "delete_roles_for_user_in_domain",
              30: "clear_policy", 31: "load_policy", 32: "load_policy[adapter fails after n rows]", 33: "save_policy",
              34: "build_role_links", 35: "enable_auto_save", 36: "enable_auto_build_role_links",
-             37: "enable_auto_notify_watcher", 38: "enable_enforce", 39: "set_role_manager(fresh)+build_role_links", 50: "enforce", 51: "enforce_ex", 52: "get_policy",
+             37: "enable_auto_notify_watcher", 38: "enable_enforce", 39: "set_role_manager(fresh)+build_role_links",
+             40: "STORE(out of band): insert row at position", 41: "STORE(out of band): delete row",
+             42: "STORE(out of band): delete every row of the policy type", 50: "enforce", 51: "enforce_ex", 52: "get_policy",
              53: "get_filtered_policy", 54: "has_policy", 55: "get_roles_for_user", 56: "get_users_for_role",
              57: "get_roles_for_user_in_domain", 58: "get_users_for_role_in_domain", 59: "rm.has_link",
              60: "get_implicit_roles_for_user", 61: "get_implicit_permissions_for_user",
@@ -757,10 +776,12 @@ def pretty_op(op):
 
     c = op[0]
     args = list(op[1:])
-    if c in (1, 2, 3, 4, 5, 52, 53, 54, 59) and args:
+    if c in (1, 2, 3, 4, 5, 40, 41, 42, 52, 53, 54, 59) and args:
         args[0] = {0: "p", 1: "g", 2: "g2"}.get(args[0], args[0])
         if c in (5, 53):
             return [names[c], args[0], args[1]] + [p(a) for a in args[2:]]
+        if c == 40:
+            return [names[c], args[0], p(args[1])] + args[2:]
         return [names[c], args[0]] + [p(a) for a in args[1:]]
     if c == 8:
         return [names[c], p(args[0]), args[1], p(args[2])]
